@@ -28,16 +28,16 @@ import (
 // placeholder's own value where the translation put it.
 
 type C11Case struct {
-	Groups    [][]ref.Cmd `json:"groups"` // each: lets followed by one msg
+	Groups [][]ref.Cmd `json:"groups"` // each: lets followed by one msg
 	// Carriers (parallel to Groups): 0 the message stands in the block itself; 1 inside a {let} content
 	// block that is printed; 2 inside a {param} content block of a call that prints it; 3 both
 	Carriers []int `json:"carriers,omitempty"`
 	// Region: 0 the catalogue is asked for under its own name; 1 it is stored as <locale>-<REGION>.po next
 	// to a decoy <locale>.po with other translations, and asked for as <locale>_<REGION> (the closest
 	// catalogue wins); 2 only <locale>.po exists and <locale>_<REGION> falls back to it
-	Region int `json:"region,omitempty"`
-	Catalogue string      `json:"catalogue"`
-	Locale    string      `json:"locale"`
+	Region    int    `json:"region,omitempty"`
+	Catalogue string `json:"catalogue"`
+	Locale    string `json:"locale"`
 }
 
 type c11Part struct {
@@ -395,7 +395,18 @@ func checkC11(c C11Case) Verdict {
 	plain := cb.render("m.t", nil, nil, false)
 	var buf bytes.Buffer
 	var rerr error
-	if p := catch(func() { rerr = cb.tofu.NewRenderer("m.t").WithMessages(bundle).Execute(&buf, nil) }); p != nil {
+	if p := catch(func() {
+		// (the setters of a Renderer may be called in any order)
+		ij := toDataMap(map[string]ref.Value{"zz": ref.S("ij")})
+		switch strHash(src) % 3 {
+		case 0:
+			rerr = cb.tofu.NewRenderer("m.t").WithMessages(bundle).Execute(&buf, nil)
+		case 1:
+			rerr = cb.tofu.NewRenderer("m.t").WithMessages(bundle).Inject(ij).Execute(&buf, nil)
+		default:
+			rerr = cb.tofu.NewRenderer("m.t").Inject(ij).WithMessages(bundle).Execute(&buf, nil)
+		}
+	}); p != nil {
 		return bad(true, "render with the catalogue panicked: %v\n%s\n%s", p, pobuf.String(), src)
 	}
 	if rerr != nil {
